@@ -35,7 +35,7 @@ CLAIMED = {
      text="Sequence part: every sequence up to the stated depth over writes, snapshots (<=2 live), a held iterator, flushes, compactions and seek-triggered compaction; after every operation every live snapshot's gets and forward/backward scans and the held iterator equal the model frozen at creation. Schedule part: all schedules within the preemption/deviation bound of snapshot/iterator readers against overwrite+flush+compaction+file deletion under strict-unlink."),
   "C05": dict(level="model_checking", design="§5 C05", note=SCHED_NOTE,
      technique="stateless model checking of the real code: exhaustive preemption/deviation-bounded DFS over thread schedules (own scheduler on the shuttle runtime) with brute-force linearizability checking of each history",
-     text="All schedules with at most the stated number of preemptions/deviations of 24 sharp (2-4 threads) and 132 generated 2-thread programs (get/put/delete/batch/snapshot read/iterator/compact_range over two keys, memtable rotation + flush + version install inside the run); every recorded call/return history must be linearizable against a map model. The memtable skip list is a verification copy of the dependency with scheduling points between its per-level links. Under an injected fault by file kind (once / sticky, optionally only one thread's calls) 20 writer programs are judged by linearizability with failed calls optional and by a reopen after the fault: every caller got its own outcome."),
+     text="All schedules with at most the stated number of preemptions/deviations of 22 sharp (2-4 threads) and 132 generated 2-thread programs (get/put/delete/batch/snapshot read/iterator/compact_range over two keys, memtable rotation + flush + version install inside the run); every recorded call/return history must be linearizable against a map model. The memtable skip list is a verification copy of the dependency with scheduling points between its per-level links. Under an injected fault by file kind (once / sticky, optionally only one thread's calls) 20 writer programs are judged by linearizability with failed calls optional and by a reopen after the fault: every caller got its own outcome."),
   "C06": dict(level="model_checking", design="§5 C06", note=SCHED_NOTE,
      technique="exhaustive preemption/deviation-bounded schedule DFS on the real code; atomic-visibility oracle on snapshot reads and iterator scans",
      text="All schedules within the bound of writers applying multi-key batches (2-3 keys, rotating, group-commit-merged, delete+put, one key twice in a batch) against snapshot readers, plain gets and iterator scans (forwards and backwards on one iterator), with the named switch points inside apply_changes; every sequence-consistent observation sees all or none of each batch."),
